@@ -7,6 +7,9 @@ import Driver.Stake
 import Driver.Rewards
 import Driver.Olvm
 import Driver.Sig
+import Driver.Alleg
+import Driver.Gov
+import Driver.Elect
 
 def main (args : List String) : IO UInt32 := do
   match args with
@@ -19,4 +22,7 @@ def main (args : List String) : IO UInt32 := do
   | ["rewards"] => Driver.Rewards.main; return 0
   | ["olvm"] => Driver.Olvm.main; return 0
   | ["sigm"] => Driver.Sig.main; return 0
+  | ["alleg"] => Driver.Alleg.main; return 0
+  | ["gov"] => Driver.Gov.main; return 0
+  | ["elect"] => Driver.Elect.main; return 0
   | _ => IO.eprintln "usage: olpdriver <engine>  (engines: kv, shell)"; return 2
